@@ -106,6 +106,25 @@ def check(case, res):
                     if s['out'] != [1, 9] or s['cells'][cc]['value'] != prev['cells'][cc]['value']:
                         bad.append(('rebind', 'flowvar_single_assignment', i,
                                     'op %d %s on a bound FlowVar: outcome %s value %s' % (i, op, s['out'], s['cells'][cc]['value'])))
+        # which routine do waits register?  Everything executed during this op runs below ONE routine: the one the
+        # scheduler woke (tick) or the one next() was called on from outside; Condition.wait()/FlowVar.value must
+        # register THAT routine (current_tt.thread_player = the routine playing on the clock), however deep the wait is
+        root = None
+        if op[0] == 'tick' and prev['queue']:
+            root = prev['queue'][0][1]
+        elif op[0] == 'call' and op[1][0] == 'next':
+            root = op[1][1]
+        for cc, x in enumerate(s['cells']):
+            before, after = prev['cells'][cc]['waiting'], x['waiting']
+            new = after[len(before):] if after[:len(before)] == before else after
+            if root is None:
+                if new and after[:len(before)] == before:
+                    bad.append(('wait_registers', 'wait_registers_thread_player', i,
+                                'op %d %s ran no routine but added %s to a waiting list' % (i, op, new)))
+            elif any(r != root for r in new):
+                bad.append(('wait_registers', 'wait_registers_thread_player', i,
+                            'op %d %s ran routine %d (and routines nested below it); a wait registered %s instead of the '
+                            'routine playing on the clock (%d)' % (i, op, root, [r for r in new if r != root], root)))
         if op[0] == 'tick':
             last_next_stop.clear()
         for cc, x in enumerate(s['cells']):
